@@ -420,7 +420,7 @@ class Rewriter:
         return True
 
     # ---- B. iterator pipelines ------------------------------------------------------------------------
-    STAGES = ("map", "filter", "filter_map", "copied", "cloned", "inspect")
+    STAGES = ("map", "filter", "filter_map", "copied", "cloned", "inspect", "flat_map")
     SINKS = ("sum", "count", "for_each", "fold", "collect", "find", "position")
 
     def producer_call(self, op):
@@ -456,6 +456,200 @@ class Rewriter:
                 return False
             x = ss[0]
         return False
+
+    @staticmethod
+    def is_iterator_ty(ty):
+        """std iterator types (adaptors and the IntoIter / Iter structs): `next` can be called on them directly"""
+        return ty.startswith("std::iter::") or ty.split("<")[0].rsplit("::", 1)[-1] in ("IntoIter", "Iter", "IterMut", "Chars", "Bytes", "Range", "RangeInclusive")
+
+    def new_loop(self, Y, it_ty, line):
+        """blocks of `loop { match Iterator::next(&mut Y) { None => break, Some(_) => body } }`: (header, body, exit, opt local)"""
+        r_ref = self.new_local("&mut " + it_ty)
+        opt = self.new_local("std::option::Option<?>")
+        dl = self.new_local("isize")
+        header = self.new_block(line)
+        sw = self.new_block(line)
+        body = self.new_block(line)
+        exit_b = self.new_block(line)
+        unreach = self.new_block(line)
+        self.blocks[header]["stmts"].append(_assign(_pl(r_ref), {"ref": _pl(Y), "mut": True}, line))
+        self.blocks[header]["term"] = {"k": "call", "callee": {"path": "std::iter::Iterator::next", "full": f"<{it_ty} as std::iter::Iterator>::next",
+                                                                 "name": "next", "trait": "std::iter::Iterator", "local": False,
+                                                                 "resolved": f"<{it_ty} as std::iter::Iterator>::next", "resolved_local": False,
+                                                                 "resolved_kind": "Item", "generic_args": [it_ty], "bound_impls": [], "syn": True},
+                                       "args": [_mv(r_ref)], "dest": _pl(opt), "to": sw, "syn": True}
+        self.blocks[sw]["stmts"].append(_assign(_pl(dl), {"discr": _pl(opt)}, line))
+        self.blocks[sw]["term"] = {"k": "switch", "on": _mv(dl), "ty": "isize", "arms": [[0, exit_b], [1, body]], "otherwise": unreach, "syn": True}
+        return header, body, exit_b, opt
+
+    def emit_stages(self, stages, cur_b, x, xty, cont, line):
+        """apply the adaptor stages to item local x inside a loop whose `continue` target is block cont; returns the block the
+        surviving item reaches, its local and type, and the (possibly inner, after flat_map) continue target"""
+        header = cont
+        for (sn, cb) in stages:
+            if sn in ("copied", "cloned"):
+                y = self.new_local(xty[1:] if xty.startswith("&") else xty)
+                self.blocks[cur_b]["stmts"].append(_assign(_pl(y), {"use": _cp(x, ["deref"])}, line))
+                x, xty = y, self.locals[y]["ty"]
+            elif sn == "map":
+                y = self.new_local(self.ret_ty(cb))
+                nb = self.new_block(line)
+                self.blocks[cur_b]["term"] = self.call_callable(cb, [_mv(x)], y, nb, line, self.blocks[cur_b]["stmts"])
+                cur_b, x, xty = nb, y, self.locals[y]["ty"]
+            elif sn in ("filter", "inspect"):
+                ref = self.new_local("&" + xty)
+                self.blocks[cur_b]["stmts"].append(_assign(_pl(ref), {"ref": _pl(x), "mut": False}, line))
+                keep = self.new_local("bool" if sn == "filter" else "()")
+                tb = self.new_block(line)
+                self.blocks[cur_b]["term"] = self.call_callable(cb, [_mv(ref)], keep, tb, line, self.blocks[cur_b]["stmts"])
+                if sn == "filter":
+                    nb = self.new_block(line)
+                    self.blocks[tb]["term"] = {"k": "switch", "on": _mv(keep), "ty": "bool", "arms": [[0, header]], "otherwise": nb, "syn": True}
+                    cur_b = nb
+                else:
+                    cur_b = tb
+            elif sn == "flat_map":
+                # for x in outer { for z in f(x) { .. } }: the closure's result is the inner loop's iterator
+                ity = self.ret_ty(cb)
+                y = self.new_local(ity)
+                nb = self.new_block(line)
+                self.blocks[cur_b]["term"] = self.call_callable(cb, [_mv(x)], y, nb, line, self.blocks[cur_b]["stmts"])
+                h2, body2, exit2, opt2 = self.new_loop(y, ity, line)
+                self.blocks[nb]["term"] = {"k": "goto", "to": h2, "syn": True}
+                self.blocks[exit2]["term"] = {"k": "goto", "to": header, "syn": True}
+                z = self.new_local("?")
+                self.blocks[body2]["stmts"].append(_assign(_pl(z), {"use": _mv(opt2, _variant("Some", 1, "?", "std::option::Option<?>"))}, line))
+                cur_b, x, xty, header = body2, z, "?", h2
+            elif sn == "filter_map":
+                oty = self.ret_ty(cb)
+                o = self.new_local(oty)
+                tb = self.new_block(line)
+                self.blocks[cur_b]["term"] = self.call_callable(cb, [_mv(x)], o, tb, line, self.blocks[cur_b]["stmts"])
+                d2 = self.new_local("isize")
+                self.blocks[tb]["stmts"].append(_assign(_pl(d2), {"discr": _pl(o)}, line))
+                nb = self.new_block(line)
+                u2 = self.new_block(line)
+                self.blocks[tb]["term"] = {"k": "switch", "on": _mv(d2), "ty": "isize", "arms": [[0, header], [1, nb]], "otherwise": u2, "syn": True}
+                inner = oty[len("std::option::Option<"):-1] if oty.startswith("std::option::Option<") else "?"
+                y = self.new_local(inner)
+                self.blocks[nb]["stmts"].append(_assign(_pl(y), {"use": _mv(o, _variant("Some", 1, inner, oty))}, line))
+                cur_b, x, xty = nb, y, inner
+        return cur_b, x, xty, header
+
+    def rewrite_loop_source(self, bi):
+        """`for y in src.map(f).filter(g) { body }`: the loop runs over `src` and the stages are applied to each item in front of
+        the body (`for x in src { let y = f(x); if !g(&y) { continue }; body }`)"""
+        b = self.blocks[bi]
+        t = b["term"]
+        c = t["callee"]
+        if c.get("name") != "next" or not (c.get("trait") or "").endswith("iter::Iterator") or t.get("to") is None or t["dest"]["proj"]:
+            return False
+        if len(t["args"]) != 1:
+            return False
+        # receiver: `r = &mut Y` / `r2 = &mut *r` in this very block
+        pl = t["args"][0].get("move") or t["args"][0].get("copy")
+        if pl is None or pl["proj"]:
+            return False
+        ref_stmt = None
+        l = pl["l"]
+        for _ in range(3):
+            ds = [s_ for s_ in b["stmts"] if s_["k"] == "assign" and s_["place"]["l"] == l and not s_["place"]["proj"]]
+            if len(ds) != 1 or len(self.defs_of(l)) != 1 or "ref" not in ds[0]["rv"]:
+                return False
+            rp = ds[0]["rv"]["ref"]
+            if not rp["proj"]:
+                ref_stmt = ds[0]
+                break
+            if rp["proj"] != ["deref"]:
+                return False
+            l = rp["l"]
+        if ref_stmt is None:
+            return False
+        Y = ref_stmt["rv"]["ref"]["l"]
+        # producers of Y: moves, identity into_iter, adaptor stages with a known closure
+        stages, drop_blocks = [], []
+        cur = Y
+        for _ in range(12):
+            ds = self.defs_of(cur)
+            if len(ds) != 1:
+                break
+            if ds[0][0] == "stmt":
+                rv = ds[0][2]["rv"]
+                p2 = (rv["use"].get("move") or rv["use"].get("copy")) if "use" in rv else None
+                if p2 is None or p2["proj"]:
+                    break
+                cur = p2["l"]
+                continue
+            pb, pt = ds[0][1], ds[0][2]
+            pn = pt["callee"].get("name")
+            a0 = (pt["args"][0].get("move") or pt["args"][0].get("copy")) if pt["args"] else None
+            if a0 is None or a0["proj"]:
+                break
+            if pn == "into_iter" and (pt["callee"].get("resolved") or pt["callee"].get("path")) == "<I as std::iter::IntoIterator>::into_iter":
+                if not stages and not self.is_iterator_ty(self.locals[a0["l"]]["ty"]):
+                    break
+                drop_blocks.append((pb, a0["l"]))
+                cur = a0["l"]
+                continue
+            if pn in self.STAGES and (pt["callee"].get("trait") or "").endswith("iter::Iterator"):
+                cb = None
+                if pn in ("map", "filter", "filter_map", "inspect", "flat_map"):
+                    cb = self.callable_of(pt["args"][1]) if len(pt["args"]) == 2 else None
+                    if cb is None:
+                        break
+                    if pn == "flat_map" and not self.is_iterator_ty(self.ret_ty(cb)):
+                        break
+                stages.append((pn, cb))
+                drop_blocks.append((pb, a0["l"]))
+                cur = a0["l"]
+                continue
+            break
+        if not any(cb is not None for _n, cb in stages):
+            return False
+        # keep only the producers up to the innermost stage (a trailing identity into_iter of the source stays)
+        while drop_blocks and stages and False:
+            pass
+        stages.reverse()
+        # producers are straight-line predecessors of the loop, outside of it
+        if any(pb == bi for pb, _s in drop_blocks):
+            return False
+        # the switch on the result
+        swb = self.blocks[t["to"]]
+        st = swb["term"]
+        opt = t["dest"]["l"]
+        if st["k"] != "switch":
+            return False
+        dread = [s_ for s_ in swb["stmts"] if s_["k"] == "assign" and "discr" in s_["rv"] and s_["rv"]["discr"] == {"l": opt, "proj": []}]
+        arms = dict((v, tg) for v, tg in st["arms"])
+        if len(dread) != 1 or 1 not in arms or 0 not in arms:
+            return False
+        line = b["line"]
+        # innermost source: the first argument of the innermost dropped producer
+        src_local = drop_blocks[-1][1]
+        # trim: producers after the last closure stage (towards the source) are left in place if they are not stages
+        for pb, _src in drop_blocks:
+            pt = self.blocks[pb]["term"]
+            self.blocks[pb]["term"] = {"k": "goto", "to": pt["to"], "syn": "stage-dropped"}
+        ref_stmt["rv"]["ref"]["l"] = src_local
+        opt2 = self.new_local("std::option::Option<?>")
+        t["dest"] = _pl(opt2)
+        dread[0]["rv"]["discr"] = {"l": opt2, "proj": []}
+        first_ty = "?"
+        if stages[0][1] is not None:
+            first_ty = self.param_ty(stages[0][1], 0)
+            if stages[0][0] in ("filter", "inspect"):
+                first_ty = first_ty[1:] if first_ty.startswith("&") else first_ty
+        x = self.new_local(first_ty)
+        pre = self.new_block(line, [_assign(_pl(x), {"use": _mv(opt2, _variant("Some", 1, first_ty, "std::option::Option<" + first_ty + ">"))}, line)])
+        cur_b, x, xty, cont = self.emit_stages(stages, pre, x, first_ty, bi, line)
+        self.blocks[cur_b]["stmts"].append(_assign(_pl(opt), {"agg": {"adt": "std::option::Option", "variant": "Some", "vidx": 1, "local": False}, "ops": [_mv(x)]}, line))
+        self.blocks[cur_b]["term"] = {"k": "goto", "to": arms[1], "syn": True}
+        st["arms"] = [[v, (pre if v == 1 else tg)] for v, tg in st["arms"]]
+        if cont != bi:
+            # a flat_map stage: the body's `continue` (its back edges to this header) must continue the inner loop
+            for ob in self.blocks:
+                pass
+        return True
 
     def rewrite_pipeline(self, bi):
         b = self.blocks[bi]
@@ -496,9 +690,11 @@ class Rewriter:
             if not self.linear_to(pb, bi):
                 break
             cb = None
-            if pn in ("map", "filter", "filter_map", "inspect"):
+            if pn in ("map", "filter", "filter_map", "inspect", "flat_map"):
                 cb = self.callable_of(pt["args"][1]) if len(pt["args"]) == 2 else None
                 if cb is None:
+                    break
+                if pn == "flat_map" and not self.is_iterator_ty(self.ret_ty(cb)):
                     break
             stages.append((pn, cb))
             stage_blocks.append(pb)
@@ -547,42 +743,9 @@ class Rewriter:
         x = self.new_local(first_ty)
         self.blocks[cur_b]["stmts"].append(_assign(_pl(x), {"use": _mv(opt, _variant("Some", 1, first_ty, "std::option::Option<" + first_ty + ">"))}, line))
         xty = first_ty
-        for (sn, cb) in stages:
-            if sn in ("copied", "cloned"):
-                y = self.new_local(xty[1:] if xty.startswith("&") else xty)
-                self.blocks[cur_b]["stmts"].append(_assign(_pl(y), {"use": _cp(x, ["deref"])}, line))
-                x, xty = y, self.locals[y]["ty"]
-            elif sn == "map":
-                y = self.new_local(self.ret_ty(cb))
-                nb = self.new_block(line)
-                self.blocks[cur_b]["term"] = self.call_callable(cb, [_mv(x)], y, nb, line, self.blocks[cur_b]["stmts"])
-                cur_b, x, xty = nb, y, self.locals[y]["ty"]
-            elif sn in ("filter", "inspect"):
-                ref = self.new_local("&" + xty)
-                self.blocks[cur_b]["stmts"].append(_assign(_pl(ref), {"ref": _pl(x), "mut": False}, line))
-                keep = self.new_local("bool" if sn == "filter" else "()")
-                tb = self.new_block(line)
-                self.blocks[cur_b]["term"] = self.call_callable(cb, [_mv(ref)], keep, tb, line, self.blocks[cur_b]["stmts"])
-                if sn == "filter":
-                    nb = self.new_block(line)
-                    self.blocks[tb]["term"] = {"k": "switch", "on": _mv(keep), "ty": "bool", "arms": [[0, header]], "otherwise": nb, "syn": True}
-                    cur_b = nb
-                else:
-                    cur_b = tb
-            elif sn == "filter_map":
-                oty = self.ret_ty(cb)
-                o = self.new_local(oty)
-                tb = self.new_block(line)
-                self.blocks[cur_b]["term"] = self.call_callable(cb, [_mv(x)], o, tb, line, self.blocks[cur_b]["stmts"])
-                d2 = self.new_local("isize")
-                self.blocks[tb]["stmts"].append(_assign(_pl(d2), {"discr": _pl(o)}, line))
-                nb = self.new_block(line)
-                u2 = self.new_block(line)
-                self.blocks[tb]["term"] = {"k": "switch", "on": _mv(d2), "ty": "isize", "arms": [[0, header], [1, nb]], "otherwise": u2, "syn": True}
-                inner = oty[len("std::option::Option<"):-1] if oty.startswith("std::option::Option<") else "?"
-                y = self.new_local(inner)
-                self.blocks[nb]["stmts"].append(_assign(_pl(y), {"use": _mv(o, _variant("Some", 1, inner, oty))}, line))
-                cur_b, x, xty = nb, y, inner
+        cur_b, x, xty, cont = self.emit_stages(stages, cur_b, x, xty, header, line)
+        if xty == "?" and name == "collect" and dty.startswith("std::vec::Vec<"):
+            self.locals[x]["ty"] = xty = dty[len("std::vec::Vec<"):-1]
         # 3. the sink
         pre = b["stmts"]
         if name in ("sum", "count"):
@@ -591,7 +754,7 @@ class Rewriter:
             pre.append(_assign(_pl(acc), {"use": {"const": {"int": 0, "ty": dty}}}, line))
             addend = _mv(x) if name == "sum" else {"const": {"int": 1, "ty": dty}}
             self.blocks[cur_b]["stmts"].append(_assign(_pl(acc), {"bin": "Add", "a": _cp(acc), "b": addend, "aty": dty}, line))
-            self.blocks[cur_b]["term"] = {"k": "goto", "to": header}
+            self.blocks[cur_b]["term"] = {"k": "goto", "to": cont}
             self.blocks[exit_b]["stmts"].append(_assign(_pl(dest), {"use": _cp(acc)}, line))
             self.blocks[exit_b]["term"] = {"k": "goto", "to": after}
         elif name == "collect":
@@ -608,21 +771,21 @@ class Rewriter:
             self.blocks[cur_b]["term"] = {"k": "call", "callee": {"path": "std::vec::Vec::<T, A>::push", "full": "std::vec::Vec::<T, A>::push", "name": "push",
                                                                     "trait": None, "local": False, "resolved": "std::vec::Vec::<T, A>::push", "resolved_local": False,
                                                                     "resolved_kind": "Item", "generic_args": [], "bound_impls": [], "syn": True},
-                                          "args": [_mv(vr), _mv(x)], "dest": _pl(unit), "to": header, "syn": True}
+                                          "args": [_mv(vr), _mv(x)], "dest": _pl(unit), "to": cont, "syn": True}
             self.blocks[exit_b]["term"] = {"k": "goto", "to": after}
             b["term"] = {"k": "goto", "to": nb0, "syn": "pipeline"}
             self.changed = True
             return True
         elif name == "for_each":
             unit = self.new_local("()")
-            self.blocks[cur_b]["term"] = self.call_callable(sink_cb, [_mv(x)], unit, header, line, self.blocks[cur_b]["stmts"])
+            self.blocks[cur_b]["term"] = self.call_callable(sink_cb, [_mv(x)], unit, cont, line, self.blocks[cur_b]["stmts"])
             self.blocks[exit_b]["stmts"].append(_assign(_pl(dest), {"use": {"const": {"zst": "()"}}}, line))
             self.blocks[exit_b]["term"] = {"k": "goto", "to": after}
         elif name == "fold":
             acc = self.new_local(dty, "acc")
             pre.append(_assign(_pl(acc), {"use": args[1]}, line))
             tmp = self.new_local(dty)
-            nb = self.new_block(line, [_assign(_pl(acc), {"use": _mv(tmp)}, line)], {"k": "goto", "to": header})
+            nb = self.new_block(line, [_assign(_pl(acc), {"use": _mv(tmp)}, line)], {"k": "goto", "to": cont})
             self.blocks[cur_b]["term"] = self.call_callable(sink_cb, [_cp(acc), _mv(x)], tmp, nb, line, self.blocks[cur_b]["stmts"])
             self.blocks[exit_b]["stmts"].append(_assign(_pl(dest), {"use": _cp(acc)}, line))
             self.blocks[exit_b]["term"] = {"k": "goto", "to": after}
@@ -634,7 +797,7 @@ class Rewriter:
             yes = self.new_block(line, [_assign(_pl(dest), {"agg": {"adt": "std::option::Option", "variant": "Some", "vidx": 1, "local": False}, "ops": [_mv(x)]}, line)],
                                  {"k": "goto", "to": after})
             self.blocks[cur_b]["term"] = self.call_callable(sink_cb, [_mv(ref)], hit, tb, line, self.blocks[cur_b]["stmts"])
-            self.blocks[tb]["term"] = {"k": "switch", "on": _mv(hit), "ty": "bool", "arms": [[0, header]], "otherwise": yes, "syn": True}
+            self.blocks[tb]["term"] = {"k": "switch", "on": _mv(hit), "ty": "bool", "arms": [[0, cont]], "otherwise": yes, "syn": True}
             self.blocks[exit_b]["stmts"].append(_assign(_pl(dest), {"agg": {"adt": "std::option::Option", "variant": "None", "vidx": 0, "local": False}, "ops": []}, line))
             self.blocks[exit_b]["term"] = {"k": "goto", "to": after}
         elif name == "position":
@@ -645,7 +808,7 @@ class Rewriter:
             yes = self.new_block(line, [_assign(_pl(dest), {"agg": {"adt": "std::option::Option", "variant": "Some", "vidx": 1, "local": False}, "ops": [_cp(idx)]}, line)],
                                  {"k": "goto", "to": after})
             no = self.new_block(line, [_assign(_pl(idx), {"bin": "Add", "a": _cp(idx), "b": {"const": {"int": 1, "ty": "usize"}}, "aty": "usize"}, line)],
-                                {"k": "goto", "to": header})
+                                {"k": "goto", "to": cont})
             self.blocks[cur_b]["term"] = self.call_callable(sink_cb, [_mv(x)], hit, tb, line, self.blocks[cur_b]["stmts"])
             self.blocks[tb]["term"] = {"k": "switch", "on": _mv(hit), "ty": "bool", "arms": [[0, no]], "otherwise": yes, "syn": True}
             self.blocks[exit_b]["stmts"].append(_assign(_pl(dest), {"agg": {"adt": "std::option::Option", "variant": "None", "vidx": 0, "local": False}, "ops": []}, line))
@@ -777,7 +940,7 @@ class Rewriter:
                 if t["k"] != "call" or b.get("cleanup") or "indirect" in t["callee"]:
                     continue
                 try:
-                    if self.rewrite_combinator(bi) or self.rewrite_pipeline(bi) or self.rewrite_closure_call(bi):
+                    if self.rewrite_combinator(bi) or self.rewrite_pipeline(bi) or self.rewrite_closure_call(bi) or self.rewrite_loop_source(bi):
                         progress = True
                         self.changed = True
                 except (KeyError, IndexError, TypeError):
@@ -793,15 +956,36 @@ def normalise(F):
     records the closures that became directly called (to be spliced by the inliner)"""
     changed = {}
     called_closures = set()
+    # chain-idiom functions, their closures, and the crate-private helpers only they call (a helper extracted from the token
+    # expansion is part of that idiom: it is spliced back into it by the inliner)
+    keep = {p for p, f in F.fns.items()
+            if any(p.startswith(k) for k in KEEP_CHAINS) or any((f.parent or "").startswith(k) for k in KEEP_CHAINS)}
+    callers = {}
+    for p, f in F.fns.items():
+        for _bi, t in f.calls():
+            q = t["callee"].get("resolved") or t["callee"].get("path")
+            if q in F.fns and q != p:
+                callers.setdefault(q, set()).add(p)
+        if f.parent in F.fns:
+            callers.setdefault(p, set()).add(f.parent)
+    grew = True
+    while grew:
+        grew = False
+        for q, cs in callers.items():
+            if q not in keep and cs and cs <= keep and (F.fns[q].d.get("vis") or "") != "pub":
+                keep.add(q)
+                grew = True
+    keep |= getattr(F, "keep_chains", set())       # a later round must not rewrite what an earlier round left alone
+    F.keep_chains = keep
     for p, f in list(F.fns.items()):
-        if any(p.startswith(k) for k in KEEP_CHAINS) or any((f.parent or "").startswith(k) for k in KEEP_CHAINS):
+        if p in keep:
             continue
         has = False
         for b in f.blocks:
             t = b["term"]
             if t["k"] == "call" and "indirect" not in t["callee"]:
                 n = t["callee"].get("name")
-                if n in Rewriter.SINKS or n in ("map", "map_or", "map_or_else", "and_then", "unwrap_or_else", "filter", "flatten",
+                if n in Rewriter.SINKS or n in Rewriter.STAGES or n in ("map", "map_or", "map_or_else", "and_then", "unwrap_or_else", "filter", "flatten",
                                                 "map_err", "then", "then_some", "call", "call_mut", "call_once", "ok", "ok_or", "branch"):
                     has = True
                     break
